@@ -7,6 +7,7 @@ package main
 
 import (
 	"errors"
+	"io"
 	"math/rand"
 	"net"
 	"os"
@@ -21,8 +22,9 @@ import (
 
 type fragSocket struct {
 	seed     int64
-	maxChunk int // 0: no fragmentation
-	readers  int // poll mode: concurrent serve() calls per connection
+	maxChunk int   // 0: no fragmentation
+	readers  int   // poll mode: concurrent serve() calls per connection
+	srvEOF   error // non-nil: accepted connections report the end of the stream with this error instead of io.EOF
 	opened   int64
 	closed   int64
 	lmu      sync.Mutex
@@ -62,12 +64,13 @@ func (s *fragSocket) Live() int64 { return atomic.LoadInt64(&s.opened) - atomic.
 
 type fragConn struct {
 	net.Conn
-	sock  *fragSocket
-	mu    sync.Mutex
-	rnd   *rand.Rand
-	once  sync.Once
-	cutAt int64 // if > 0: close the connection after this many bytes written
-	wrote int64
+	sock   *fragSocket
+	mu     sync.Mutex
+	rnd    *rand.Rand
+	once   sync.Once
+	server bool  // accepted side
+	cutAt  int64 // if > 0: close the connection after this many bytes written
+	wrote  int64
 }
 
 func (c *fragConn) Write(b []byte) (int, error) {
@@ -107,6 +110,14 @@ func (c *fragConn) Write(b []byte) (int, error) {
 	return total, nil
 }
 
+func (c *fragConn) Read(b []byte) (int, error) {
+	n, err := c.Conn.Read(b)
+	if err == io.EOF && c.server && c.sock.srvEOF != nil {
+		err = c.sock.srvEOF
+	}
+	return n, err
+}
+
 func (c *fragConn) Close() error {
 	c.once.Do(func() { atomic.AddInt64(&c.sock.closed, 1) })
 	return c.Conn.Close()
@@ -125,7 +136,9 @@ func (l *fragListener) Accept() (socket.Conn, error) {
 	if err != nil {
 		return nil, err
 	}
-	return l.sock.wrap(c), nil
+	fc := l.sock.wrap(c)
+	fc.server = true
+	return fc, nil
 }
 func (l *fragListener) Close() error   { return l.l.Close() }
 func (l *fragListener) Addr() net.Addr { return l.l.Addr() }
